@@ -40,3 +40,4 @@ PROPERTY WalkTargets
 PROPERTY ForgetOnlyUnreachable
 PROPERTY WalkSpacing
 PROPERTY EdgeGrowsVerified
+PROPERTY PongCounted
